@@ -53,7 +53,7 @@ static size_t xv_put_dec (char *str, size_t size, size_t pos, unsigned long long
   unsigned nd = xv_dec_ndigits (v);
   unsigned char d[10];
   unsigned long long acc = 0;
-  for (unsigned i = 0; i < 10; i++)
+  for (unsigned i = 0; i < 10; i++)   /* XV_UNWIND 10 */
     {
       d[i] = nondet_uchar ();
       __CPROVER_assume (d[i] <= 9);
@@ -61,18 +61,26 @@ static size_t xv_put_dec (char *str, size_t size, size_t pos, unsigned long long
         acc = acc * 10 + d[i];
     }
   __CPROVER_assume (acc == v);
+  /* A-dec: a number that strtoul parsed from a canonical digit string prints
+     as exactly those digits */
+  for (unsigned r = 0; r < XV_PARSE_LOG; r++)
+    if (r < xv_parse_n && !xv_parse_log[r].overflow && xv_parse_log[r].v == v
+        && xv_parse_log[r].nd == nd && xv_parse_log[r].dig[0] != 0)
+      for (unsigned i = 0; i < 10; i++)   /* XV_UNWIND 10 */
+        if (i < nd)
+          __CPROVER_assume (d[i] == xv_parse_log[r].dig[i]);
   __CPROVER_assume (nd == 1 || d[0] != 0);   /* canonical form; implied, stated to spare the solver the arithmetic */
   if (xv_dec_n < XV_DEC_LOG)
     {
       xv_dec_log[xv_dec_n].at = str + pos;
       xv_dec_log[xv_dec_n].v = v;
       xv_dec_log[xv_dec_n].nd = nd;
-      for (unsigned i = 0; i < 10; i++)
+      for (unsigned i = 0; i < 10; i++)   /* XV_UNWIND 10 */
         xv_dec_log[xv_dec_n].dig[i] = d[i];
       xv_dec_n++;
     }
   /* digit i goes to pos + i: keeps the indices constant when pos is */
-  for (unsigned i = 0; i < 10; i++)
+  for (unsigned i = 0; i < 10; i++)   /* XV_UNWIND 10 */
     if (i < nd)
       (void) xv_put (str, size, pos + i, (char) ('0' + (int) d[i]));
   pos += nd;
@@ -93,7 +101,7 @@ static size_t xv_put_str (char *str, size_t size, size_t pos, const char *s, siz
         memcpy (str + pos, s, c);
       return pos + n;
     }
-  for (size_t i = 0; i < XV_SNPRINTF_SCAN; i++)
+  for (size_t i = 0; i < XV_SNPRINTF_SCAN; i++)   /* XV_UNWIND 40 */
     {
       if (i >= maxlen || s[i] == 0)
         return pos;
@@ -108,7 +116,7 @@ int snprintf (char *str, size_t size, const char *fmt, ...)
   va_list ap;
   va_start (ap, fmt);
   size_t pos = 0;
-  for (size_t i = 0; fmt[i] != 0; i++)
+  for (size_t i = 0; fmt[i] != 0; i++)   /* XV_UNWIND 20 */
     {
       if (fmt[i] != '%')
         {
